@@ -220,19 +220,23 @@ code as it is now returns (0.8, 1, 0); the old rounding selection returned (1, 0
 example : toRgbF (1/5 : ℚ) 1 (1/2) = .ok (4/5, 1, 0) := by decide +kernel
 
 /-
-Full-strength statement of the property for floating-point colours (NOT proved here):
+Full-strength statement of the property for floating-point colours — **NOT proved anywhere in this
+development**:
 
   ∀ r g b : f32 in [0,1],  to_rgb(to_hsl(rgb(r,g,b))) is within 1e-4 of (r,g,b) per channel,
   and no debug_assert! fires, in IEEE-754 binary32 arithmetic.
 
-Proved part: the same statement in exact arithmetic, with error 0 (`hsl_rgb_roundtrip_field`, every
-ordered field; `hsl_rgb_roundtrip_rat` at the driver's scalar).  Missing: a rounding-error analysis
-of the ~12 float operations (the cancellation in `1 - |2l - 1|` makes the saturation ill-conditioned
-for very dark / light colours; two genuine defects of exactly that kind were found by the
-correspondence and fixed in /repo, see design/C16.md).  The 1e-4 bound on the real `f32` code is
-checked by the spec oracle on dense grids and random colours.
+What is proved is only its exact-arithmetic shadow: the same code read over the rationals (or any
+ordered field) returns the input with error 0 (`hsl_rgb_roundtrip_field`, `hsl_rgb_roundtrip_rat`).
+Missing for the real statement: a rounding-error analysis of the ~12 float operations (the
+cancellation in `1 - |2l - 1|` makes the saturation ill-conditioned for very dark / light colours;
+two genuine defects of exactly that kind were found by the correspondence and fixed in /repo, see
+design/C16.md).  The 1e-4 bound on the real `f32` code is checked by the spec oracle on dense grids
+and random colours, not by theorem.
 -/
-theorem hsl_rgb_roundtrip_f32_partial (r g b : ℚ) (hr : InUnit r) (hg : InUnit g) (hb : InUnit b) :
+/-- **A theorem about rationals, not about `f32`.**  The proved part of the float round-trip clause:
+in exact arithmetic the round trip is the identity.  It says nothing about rounding. -/
+theorem hsl_rgb_roundtrip_exact_arithmetic_partial (r g b : ℚ) (hr : InUnit r) (hg : InUnit g) (hb : InUnit b) :
     roundTripF r g b = .ok (r, g, b) := hsl_rgb_roundtrip_rat r g b hr hg hb
 
 end Retro.Props.C16
